@@ -618,6 +618,16 @@ pub trait AutoMerge: RemoteSyncHandler {
             return Ok(AutoMergeStatus::RewindLocal(remote));
         }
 
+        // Events that already exist on the remote must only be
+        // included once, otherwise events this device pushed
+        // before the remote history was rewritten by a merge
+        // from another device would be duplicated
+        let shared = local_commits
+            .intersection(&remote_commits)
+            .map(|c| **c)
+            .collect::<HashSet<_>>();
+        local.retain(|r| !shared.contains(r.commit()));
+
         // Combine the event records
         local.extend(remote);
 
